@@ -3,12 +3,14 @@ package checks
 // C05 — Session lifecycle: resume iff it should, and one connection per client id.
 
 import (
+	"bufio"
 	"fmt"
 	"sync"
 	"testing"
 	"time"
 
 	"github.com/DrmagicE/gmqtt"
+	"github.com/DrmagicE/gmqtt/server"
 	"pgregory.net/rapid"
 
 	"verif/ev"
@@ -410,4 +412,147 @@ func runC05Storm(s c05StormScen, c *ev.Case) *ev.Violation {
 
 func TestC05Storm(t *testing.T) {
 	ev.RunN(t, "C05", 25, genC05Storm, runC05Storm)
+}
+
+// ---------------------------------------------------------------------------------------
+// (c) take-over of a connection whose peer has stopped reading
+
+type c05StallScen struct {
+	V      int  `json:"v"`
+	Clean2 bool `json:"clean2"`
+	Flood  int  `json:"flood"` // messages of 48 KiB queued for the stalled connection
+	QoS    byte `json:"qos"`
+	TCP    bool `json:"tcp,omitempty"` // loopback TCP instead of the in-memory transport
+}
+
+func genC05Stall(t *rapid.T) c05StallScen {
+	return c05StallScen{V: rapid.SampledFrom([]int{4, 5}).Draw(t, "v"), Clean2: rapid.Bool().Draw(t, "clean2"),
+		Flood: rapid.SampledFrom([]int{0, 8, 24, 60, 120}).Draw(t, "flood"), QoS: byte(rapid.IntRange(0, 1).Draw(t, "qos")),
+		TCP: rapid.IntRange(0, 3).Draw(t, "tcp") == 0}
+}
+
+func runC05Stall(s c05StallScen, c *ev.Case) *ev.Violation {
+	b, err := fixture.Start(fixture.Opts{Config: fixture.BaseConfig(), TCP: s.TCP})
+	if err != nil {
+		return harnessErr("start broker: %v", err)
+	}
+	defer b.Stop()
+	const wait = 10 * time.Second
+	v := ver(s.V)
+	conn, err := b.DialConn()
+	if err != nil {
+		return harnessErr("dial: %v", err)
+	}
+	defer conn.Close()
+	name, lvl := mw.ProtoFor(v)
+	br := bufio.NewReaderSize(conn, 4096)
+	send := func(p *mw.Packet) error {
+		raw, err := mw.Encode(p, v)
+		if err != nil {
+			return err
+		}
+		_ = conn.SetWriteDeadline(time.Now().Add(wait))
+		_, err = conn.Write(raw)
+		return err
+	}
+	read := func(t mw.Type) error {
+		_ = conn.SetReadDeadline(time.Now().Add(wait))
+		for {
+			p, err := mw.ReadPacket(br, v, mw.ToClient)
+			if err != nil {
+				return err
+			}
+			if p.Type == t {
+				return nil
+			}
+		}
+	}
+	cp := &mw.Packet{Type: mw.CONNECT, ProtoName: name, ProtoLevel: lvl, ClientID: "st", CleanStart: s.V == 5}
+	if s.V == 5 {
+		cp.Props = &mw.Props{SessionExpiry: u32p(100)}
+	}
+	if err := send(cp); err != nil {
+		return harnessErr("connect A: %v", err)
+	}
+	if err := read(mw.CONNACK); err != nil {
+		return harnessErr("connack A: %v", err)
+	}
+	if err := send(&mw.Packet{Type: mw.SUBSCRIBE, PacketID: 1, Subs: []mw.SubReq{{Filter: "flood", QoS: s.QoS}}}); err != nil {
+		return harnessErr("subscribe A: %v", err)
+	}
+	if err := read(mw.SUBACK); err != nil {
+		return harnessErr("suback A: %v", err)
+	}
+	// from here on A does not read: the broker's writer for A blocks once the transport's buffers are full
+	big := make([]byte, 48*1024)
+	for k := 0; k < s.Flood; k++ {
+		b.Srv.Publisher().Publish(&gmqtt.Message{Topic: "flood", QoS: s.QoS, Payload: big})
+	}
+	if s.Flood >= 24 {
+		c.Label("writer_of_old_connection_blocked")
+		c.NonTrivial()
+	}
+	time.Sleep(20 * time.Millisecond)
+	// the newer CONNECT must displace A and be acknowledged
+	cl2, ack2, err := b.Connect(fixture.ConnectOpts{ID: "st", V: v, CleanStart: s.Clean2, AutoAck: true, Props: cp.Props})
+	if err != nil || ack2 == nil {
+		return ev.Violf("C05.takeover-not-acknowledged", "a CONNECT with the client id of a connection whose peer has stopped reading (%d x 48 KiB queued for it) was not acknowledged within %v: %v", s.Flood, wait, err).
+			With("flood", s.Flood, "v", s.V)
+	}
+	defer cl2.Kill()
+	if ack2.ReasonCode != 0 {
+		return ev.Violf("C05.takeover-not-acknowledged", "take-over CONNECT refused with %#x", ack2.ReasonCode)
+	}
+	if ack2.SessionPresent != !s.Clean2 {
+		return ev.Violf("C05.session-present", "take-over with Clean Start %v of a live session: Session Present %v", s.Clean2, ack2.SessionPresent)
+	}
+	// nothing published from now on may reach the displaced connection
+	if err := subscribeSentinel(cl2); err != nil {
+		return harnessErr("%v", err)
+	}
+	b.Srv.Publisher().Publish(&gmqtt.Message{Topic: "flood", QoS: s.QoS, Payload: []byte("after-takeover")})
+	if err := sentinelBarrier(b, []*fixture.Client{cl2}, "end"); err != nil {
+		return ev.Violf("C05.barrier", "%v", err)
+	}
+	gotAfter := false
+	for _, r := range cl2.All() {
+		if r.P.Type == mw.PUBLISH && string(r.P.Payload) == "after-takeover" {
+			gotAfter = true
+		}
+	}
+	if !s.Clean2 && !gotAfter {
+		return ev.Violf("C05.state-lost", "the session was resumed by the take-over (Session Present 1) but its subscription no longer delivers")
+	}
+	if s.Clean2 && gotAfter {
+		return ev.Violf("C05.state-leaked", "take-over with Clean Start 1 but the old subscription still delivers")
+	}
+	// A: drain what was buffered; the broker must have closed it, and the later message must not be in it
+	_ = conn.SetReadDeadline(time.Now().Add(wait))
+	for {
+		p, err := mw.ReadPacket(br, v, mw.ToClient)
+		if err != nil {
+			if ne, ok := err.(interface{ Timeout() bool }); ok && ne.Timeout() {
+				return ev.Violf("C05.displaced-not-closed", "the displaced connection was not closed by the broker within %v after the newer CONNECT had been acknowledged", wait)
+			}
+			break // EOF / reset / a packet cut short by the close
+		}
+		if p.Type == mw.PUBLISH && string(p.Payload) == "after-takeover" {
+			return ev.Violf("C05.delivered-to-displaced", "a message published after the newer connection had been acknowledged was delivered on the displaced connection")
+		}
+	}
+	n := 0
+	b.Srv.ClientService().IterateClient(func(cl server.Client) bool {
+		if cl.ClientOptions().ClientID == "st" {
+			n++
+		}
+		return true
+	})
+	if n != 1 {
+		return ev.Violf("C05.one-connection", "%d connections registered for the client id after the take-over", n)
+	}
+	return nil
+}
+
+func TestC05StalledTakeover(t *testing.T) {
+	ev.RunN(t, "C05", 4, genC05Stall, runC05Stall)
 }
